@@ -466,6 +466,8 @@ func Round3Generic(c *Ctx, id string) {
 		genRound3(c, "field-hooks", "deferred-only")
 		swappedFieldArgs(c, "swapped-field-args", pkgGraphql)
 	case "C14":
+		optionFieldsDistinct(c, "option-fields-distinct", modPath("handler"))
+		validateTestsOwnFields(c, "validate-tests-own-fields", pkgExtension)
 		mutatorListsInOrderAndComplete(c)
 		rawParamsReadAfterMutators(c)
 		c03DispatchGated(c)
@@ -476,6 +478,7 @@ func Round3Generic(c *Ctx, id string) {
 		c03FailClosed(c)
 		configFieldsRead(c, "config-fields-read", pkgExecutor, pkgHandler, pkgExtension, pkgComplex)
 	case "C15":
+		validateTestsOwnFields(c, "validate-tests-own-fields", pkgExtension)
 		unconditionalSelfRecursion(c, "unconditional-self-recursion", pkgExtension, pkgExecutor, pkgHandler, pkgTransport, modPath("graphql/handler/lru"), modPath("handler"))
 		rawParamsReadAfterMutators(c)
 		lruIsSynchronised(c)
